@@ -130,6 +130,7 @@ type Machine struct {
 	timers    []*chanV
 	ptrIDs    map[*value]int
 	inInit    int
+	overrides map[string]value
 	racyScope string
 	randInts  []*Term
 	forkSites map[string]int
@@ -689,6 +690,7 @@ func (m *Machine) resetPath() {
 	m.timers = nil
 	m.ptrIDs = map[*value]int{}
 	m.inInit = 0
+	m.overrides = map[string]value{}
 	m.racyScope = ""
 	m.randInts = nil
 	m.randDraws = 0
